@@ -29,11 +29,16 @@ def Graph.NoConditions (g : Graph) : Prop := ∀ n, g.condition n = none
 /-- acyclic CFG, by a rank that strictly decreases along every edge backwards. -/
 def Graph.Acyclic (g : Graph) : Prop := ∃ rank : NodeId → Nat, ∀ n m, m ∈ g.incoming n → rank m < rank n
 
-/-- the consistency the C++ constructors maintain: `CFGNode::bindings_` lists exactly the bindings with an
-origin at the node (`FindOrAddOrigin` registers), at most one origin per (binding, node). -/
+/-- the consistency the C++ constructors maintain: `CFGNode::bindings_` lists every binding with an origin at
+the node (`Binding::FindOrAddOrigin` registers it). -/
 structure Graph.WF (g : Graph) : Prop where
   registered : ∀ b n, b < g.bindings.length → (g.findOrigin b n).isSome → b ∈ (g.node n).bindings
-  bindings_lt : ∀ n b, b ∈ (g.node n).bindings → b < g.bindings.length
+
+/-- an acyclicity certificate: `rank` strictly decreases along every edge backwards and stays below the
+solver's recursion fuel (any acyclic graph has one with values `< nodes.length`). -/
+structure Graph.AcyclicBy (g : Graph) (rank : NodeId → Nat) : Prop where
+  dec : ∀ n m, m ∈ g.incoming n → rank m < rank n
+  bound : ∀ n, rank n < g.solveFuel
 
 /-! ### goal removal at a node, declaratively
 
